@@ -68,7 +68,17 @@ def _pairs(ex, p, args, kw, node):
     return pairs_handler(ex, p, args, kw, node)
 
 
+def h_product(ex, p, args, kw, node):
+    seqs = [ex.as_list(a, p, node) for a in args]
+    if not all(q.concrete for q in seqs):
+        raise Unsupported("itertools.product over symbolic-length sequences (bounded check: concrete sizes only)")
+    import itertools as _it
+    ex.trace["assumed"].add("itertools.product enumerates every combination in lexicographic order")
+    return [(p, Lst(items=[Tup(list(c)) for c in _it.product(*[q.items for q in seqs])]))]
+
+
 STDLIB = {
+    "itertools.product": h_product,
     "itertools.combinations": _pairs,
     "numpy.zeros": _np_zeros,
     "datetime.datetime.now": h_now,
